@@ -11,6 +11,7 @@ import (
 	"crypto/ecdsa"
 	"crypto/ed25519"
 	"crypto/elliptic"
+	"encoding/base64"
 	"encoding/json"
 	"errors"
 	"fmt"
@@ -56,6 +57,12 @@ func verifyEd25519Signature(jwk *jws.JWK, signature, msg []byte) error {
 
 // GetED25519PublicKey retunns ed25519 public key.
 func GetED25519PublicKey(jwk *jws.JWK) (ed25519.PublicKey, error) {
+	// the JOSE library silently pads or truncates 'x' to the key size, so check the encoded width first
+	xBytes, err := base64.RawURLEncoding.DecodeString(jwk.X)
+	if err != nil || len(xBytes) != ed25519.PublicKeySize {
+		return nil, errors.New("ed25519: invalid key")
+	}
+
 	jsonBytes, err := json.Marshal(jwk)
 	if err != nil {
 		return nil, err
